@@ -181,19 +181,28 @@ bool runcrypt::execute_encrypt(size_t fsize, u8_t *r_buf)
   resultprint->resetPercentage();
   buffergroup::del_instance();
   TIMER_END(AES_Encryption_Time)
-  // 写入hamc
-  TIMER_START(Hashing_Time)
-  resultprint->printtask("Calculating hmac");
-  hmachandle.writeFileHmac(settings.get_htype(), out, key, FILE_IV_MARK, FILE_HMAC_MARK, fsize);
-  resultprint->resetPercentage();
-  TIMER_END(Hashing_Time)
+  // a failed write (disk full, quota, device error) must not be reported as success
+  bool werr = fflush(out) != 0 || ferror(out);
+  if (!werr)
+  {
+    // 写入hamc
+    TIMER_START(Hashing_Time)
+    resultprint->printtask("Calculating hmac");
+    hmachandle.writeFileHmac(settings.get_htype(), out, key, FILE_IV_MARK, FILE_HMAC_MARK, fsize);
+    resultprint->resetPercentage();
+    TIMER_END(Hashing_Time)
+    werr = fflush(out) != 0 || ferror(out);
+  }
   // 释放空间
   resultprint->printtask("Releasing allocated memory");
   release(iv, mode);
-  resultprint->printenc(); // 打印结果
+  if (werr)
+    resultprint->printresv(5);
+  else
+    resultprint->printenc(); // 打印结果
   over();                  // 关闭文件
   TIMER_END(Total_Time);   // 打印时间
-  return true;
+  return !werr;
 }
 /*
 execute_decrypt:解密执行过程
@@ -226,6 +235,8 @@ bool runcrypt::execute_decrypt(size_t fsize)
     resultprint->printtask("Releasing allocated memory");
     buffergroup::del_instance();
     release(iv, mode);
+    if (fflush(out) != 0 || ferror(out))
+      res = 5; // a failed write must not be reported as success
   }
   resultprint->printresd(res); // 打印结果
   over();                      // 关闭文件
